@@ -211,14 +211,17 @@ def duplicate_includes(outdir):
 
 
 def bracket_balance(outdir):
-    """implementation-level statement of theorem 3 on the files actually written: #if/#endif balanced and
-    extern "C" braces balanced in every C/C++ file"""
+    """implementation-level statement of theorem 3 on the files actually written: #if/#endif balanced in every
+    C/C++ file and `extern "C" {` closed (by `}` right after `#ifdef __cplusplus`, or by `}  // extern "C"`)"""
     bad = []
     for f in sorted(os.listdir(outdir)):
         if classify(f) in ("c", "cxx", "header", "python", "lua"):
             depth, ext, low = 0, 0, False
+            prev = ""
             for ln in open(os.path.join(outdir, f), errors="replace"):
                 s = ln.strip()
+                if s == "":
+                    continue
                 if re.match(r"#\s*if", s):
                     depth += 1
                 elif re.match(r"#\s*endif", s):
@@ -227,13 +230,14 @@ def bracket_balance(outdir):
                         low = True
                 if re.match(r'extern\s+"C"\s*\{', s):
                     ext += 1
-                elif s == "}" and ext > 0 and depth > 0 and f.endswith((".h", ".hpp")):
+                elif s == "}" and prev == "#ifdef __cplusplus":
                     ext -= 1
                 elif s.startswith('}  // extern "C"'):
                     ext -= 1
+                prev = s
             if depth != 0 or low:
                 bad.append("%s:#if-depth-%d" % (f, depth))
-            if ext != 0 and f.endswith((".h", ".hpp", ".c", ".cpp")) and classify(f) in ("c", "cxx", "header"):
+            if ext != 0:
                 bad.append("%s:extern-depth-%d" % (f, ext))
     return bad
 
